@@ -1,0 +1,154 @@
+//go:build verif
+
+package cmd
+
+import (
+	"context"
+	"fmt"
+	"log/slog"
+	"net/url"
+	"sync/atomic"
+
+	"github.com/AdguardTeam/AdGuardDNS/internal/agd"
+	"github.com/AdguardTeam/AdGuardDNS/internal/agdcache"
+	"github.com/AdguardTeam/AdGuardDNS/internal/agdservice"
+	"github.com/AdguardTeam/AdGuardDNS/internal/debugsvc"
+	"github.com/AdguardTeam/AdGuardDNS/internal/dnsmsg"
+	"github.com/AdguardTeam/AdGuardDNS/internal/errcoll"
+	"github.com/AdguardTeam/AdGuardDNS/internal/filter"
+	"github.com/AdguardTeam/AdGuardDNS/internal/filter/filterstorage"
+	"github.com/AdguardTeam/golibs/netutil/urlutil"
+	"github.com/AdguardTeam/golibs/service"
+	"github.com/prometheus/client_golang/prometheus"
+	"gopkg.in/yaml.v2"
+)
+
+// VerifC11Env are the environment settings that reach the hash-prefix filters
+// and the filter storage.
+type VerifC11Env struct {
+	AdultBlockingURL     *url.URL
+	SafeBrowsingURL      *url.URL
+	NewRegDomainsURL     *url.URL
+	FilterIndexURL       *url.URL
+	FilterCachePath      string
+	AdultBlockingEnabled bool
+	SafeBrowsingEnabled  bool
+	NewRegDomainsEnabled bool
+}
+
+// VerifC11Built is what the builder makes of a configuration as far as the
+// safe-browsing lookups are concerned.
+type VerifC11Built struct {
+	// HashMatcher is what dnssvc gets as its TXT hash matcher.
+	HashMatcher filter.HashMatcher
+
+	// FilterStorage is what dnssvc gets as its filter storage.
+	FilterStorage *filterstorage.Default
+
+	// FilteringGroups are the filtering groups of the configuration file.
+	FilteringGroups map[agd.FilteringGroupID]*agd.FilteringGroup
+
+	// Refreshers are the refreshers registered for the debug API, by ID.
+	Refreshers map[string]agdservice.Refresher
+}
+
+// verifC11Num makes metrics namespaces unique.
+var verifC11Num atomic.Uint64
+
+// VerifC11Build parses the configuration file data, checks the sections used
+// here the way the start-up validation does, and runs the builder methods that
+// create the hash-prefix storages, filters and matcher, the filter storage and
+// the filtering groups, in the order of [Main].  The refresh workers it starts
+// keep running; use long refresh intervals.
+func VerifC11Build(
+	ctx context.Context,
+	confData []byte,
+	e *VerifC11Env,
+	l *slog.Logger,
+	errColl errcoll.Interface,
+) (res *VerifC11Built, err error) {
+	c := &configuration{}
+	err = yaml.Unmarshal(confData, c)
+	if err != nil {
+		return nil, fmt.Errorf("parsing: %w", err)
+	}
+
+	for _, v := range []struct {
+		v    validator
+		name string
+	}{
+		{v: c.SafeBrowsing, name: "safe_browsing"},
+		{v: c.AdultBlocking, name: "adult_blocking"},
+		{v: c.Filters, name: "filters"},
+		{v: c.FilteringGroups, name: "filtering_groups"},
+	} {
+		err = v.v.validate()
+		if err != nil {
+			return nil, fmt.Errorf("%s: %w", v.name, err)
+		}
+	}
+
+	u := func(x *url.URL) (res *urlutil.URL) {
+		if x == nil {
+			return nil
+		}
+
+		return &urlutil.URL{URL: *x}
+	}
+
+	envs := &environment{
+		AdultBlockingURL:       u(e.AdultBlockingURL),
+		SafeBrowsingURL:        u(e.SafeBrowsingURL),
+		NewRegDomainsURL:       u(e.NewRegDomainsURL),
+		FilterIndexURL:         u(e.FilterIndexURL),
+		BlockedServiceIndexURL: u(e.FilterIndexURL),
+		FilterCachePath:        e.FilterCachePath,
+		AdultBlockingEnabled:   strictBool(e.AdultBlockingEnabled),
+		SafeBrowsingEnabled:    strictBool(e.SafeBrowsingEnabled),
+		NewRegDomainsEnabled:   strictBool(e.NewRegDomainsEnabled),
+	}
+
+	b := &builder{
+		baseLogger:     l,
+		cacheManager:   agdcache.NewDefaultManager(),
+		cloner:         dnsmsg.NewCloner(dnsmsg.EmptyClonerStat{}),
+		conf:           c,
+		debugRefrs:     debugsvc.Refreshers{},
+		env:            envs,
+		errColl:        errColl,
+		logger:         l,
+		mtrcNamespace:  fmt.Sprintf("verifc11n%d", verifC11Num.Add(1)),
+		promRegisterer: prometheus.NewRegistry(),
+		sigHdlr: service.NewSignalHandler(&service.SignalHandlerConfig{
+			Logger:          l,
+			ShutdownTimeout: shutdownTimeout,
+		}),
+	}
+
+	err = b.initHashPrefixFilters(ctx)
+	if err != nil {
+		return nil, err
+	}
+
+	err = b.initFilterStorage(ctx)
+	if err != nil {
+		return nil, err
+	}
+
+	err = b.initFilteringGroups(ctx)
+	if err != nil {
+		return nil, err
+	}
+
+	res = &VerifC11Built{
+		HashMatcher:     b.hashMatcher,
+		FilterStorage:   b.filterStorage,
+		FilteringGroups: b.filteringGroups,
+		Refreshers:      map[string]agdservice.Refresher{},
+	}
+	for id, r := range b.debugRefrs {
+		res.Refreshers[string(id)] = r
+	}
+
+	return res, nil
+}
